@@ -80,7 +80,8 @@ def run(ctx):
     c049(ctx, rid='C02.7')
 
     # ---------------------------------------------------------------- C02.2
-    app = P.fn('rip_log::EventLog::append')
+    from .common import log_append_body
+    app = log_append_body(P)
     ser = app.calls(r'^serde_json::ser::to_string$|^serde_json::ser::to_vec$|^serde_json::ser::to_writer$')
     from .common import log_writer_calls
     _, writes, on_ok = log_writer_calls(P)
